@@ -94,6 +94,39 @@ func extractVectors(seg segment.Segment, o *ExtractOpts, c *Canon) error {
 				any = true
 			}
 			cv.Results = append(cv.Results, hits)
+			// small k on an exact index (below 1000 vectors the index is a flat one):
+			// at least one and at most k hits, each of them one of the hits of the
+			// exhaustive search - a vector that should not be in the index (of a deleted
+			// document, say) must not take one of the k places
+			if len(hits) < 1000 {
+				for _, k := range []int64{1, 2, 3} {
+					small, err := vecSearchAll(vi, q, k, nil, false)
+					if err != nil {
+						vi.Close()
+						return fmt.Errorf("vector search field %q k=%d: %v", f, k, err)
+					}
+					// (hits are (document, score) pairs: two of the k nearest vectors that
+					// belong to one document at the same distance are one hit, so fewer than
+					// k hits is legal - none at all is not, and more than k neither)
+					if (len(small) == 0 && len(hits) > 0) || int64(len(small)) > k {
+						vi.Close()
+						return fmt.Errorf("vector search field %q query %v: k=%d returns %d hits %v, the exhaustive search returns %d %v", f, q, k, len(small), small, len(hits), hits)
+					}
+					for _, h := range small {
+						found := false
+						for _, x := range hits {
+							if x == h {
+								found = true
+								break
+							}
+						}
+						if !found {
+							vi.Close()
+							return fmt.Errorf("vector search field %q query %v: k=%d returns %v, which the exhaustive search (%v) does not contain", f, q, k, h, hits)
+						}
+					}
+				}
+			}
 		}
 		vi.Close()
 		if any {
@@ -133,3 +166,26 @@ func setEngineHook(h func(op string, n int) error) { faiss.Hook = h }
 func setEngineQuiet(q bool) { faiss.Quiet = q }
 
 func engineOpSequence() []string { return faiss.OpSequence() }
+
+// loadVectorCaches opens, searches and closes every vector field of the segment
+// once, so that the segment's index cache holds their native indexes.
+func loadVectorCaches(w *World, seg segment.Segment) (int, error) {
+	vs, ok := seg.(segment.VectorSegment)
+	if !ok {
+		return 0, nil
+	}
+	n := 0
+	for _, f := range w.Cfg.VecFields {
+		vi, err := vs.InterpretVectorIndex(f.Name, false, (*roaring.Bitmap)(nil))
+		if err != nil {
+			return n, fmt.Errorf("InterpretVectorIndex(%q): %v", f.Name, err)
+		}
+		if _, err := vi.Search(make([]float32, f.Dims), 3, nil); err != nil {
+			vi.Close()
+			return n, err
+		}
+		vi.Close()
+		n++
+	}
+	return n, nil
+}
